@@ -87,7 +87,17 @@ func runOne(ctx context.Context, cmd []string, file string, timeout time.Duratio
 	c.Stderr = &out
 	_ = c.Run()
 	s := out.String()
-	first := strings.TrimSpace(strings.SplitN(s, "\n", 2)[0])
+	// the verdict is the first line that is not a solver warning (z3 warns about, and then ignores,
+	// patterns that contain connectives)
+	first := ""
+	for _, ln := range strings.Split(s, "\n") {
+		ln = strings.TrimSpace(ln)
+		if ln == "" || strings.HasPrefix(ln, "WARNING") {
+			continue
+		}
+		first = ln
+		break
+	}
 	r := SolverResult{Solver: cmd[0], Time: time.Since(t0).Seconds(), Output: s}
 	switch {
 	case first == "unsat":
